@@ -1,0 +1,38 @@
+//! Verification hooks (compiled only with `--cfg kahflane_turdb_verif`).
+//!
+//! A single primitive, [`point`], is called at linearization points, schedule
+//! points and durable side effects. With no handler installed it is a no-op.
+//! The handler (installed by the external verification harness) decides whether
+//! a point logs an event, blocks the calling thread until a scheduler releases
+//! it, or snapshots the database directory to emulate a crash.
+
+use std::sync::atomic::{AtomicBool, Ordering};
+use std::sync::{Arc, RwLock};
+
+pub type Handler = Arc<dyn Fn(&'static str, &[i64]) + Send + Sync>;
+
+static ENABLED: AtomicBool = AtomicBool::new(false);
+static HANDLER: RwLock<Option<Handler>> = RwLock::new(None);
+
+/// Installs (or with `None` removes) the process-wide handler.
+pub fn set_handler(h: Option<Handler>) {
+    let mut g = HANDLER.write().unwrap_or_else(|e| e.into_inner());
+    ENABLED.store(h.is_some(), Ordering::SeqCst);
+    *g = h;
+}
+
+/// Called by instrumented code. `name` identifies the site, `args` carries cheap
+/// scalar state (ids, lengths, counters).
+#[inline]
+pub fn point(name: &'static str, args: &[i64]) {
+    if !ENABLED.load(Ordering::Relaxed) {
+        return;
+    }
+    let h = {
+        let g = HANDLER.read().unwrap_or_else(|e| e.into_inner());
+        g.clone()
+    };
+    if let Some(h) = h {
+        h(name, args);
+    }
+}
